@@ -403,6 +403,9 @@ class Eval:
             clo = CLOSURES.get((args[0][1], args[0][2]))
             if isinstance(ps, PS) and clo is not None and isinstance(clo.node, ast.Lambda):
                 rel = lambda_pair_relation(clo.node)
+                if rel is not None and self.diagonal:
+                    keep = not lambda_pair_relation(clo.node, True)[1]      # i == j: kept only by a non-strict comparison
+                    return PS(band(ps.ij, keep), band(ps.ji, keep))
                 if rel is not None:
                     g = self.atom("g")     # i > j
                     keep_ij = g if rel == ">" else (not g)
@@ -461,8 +464,8 @@ class ROWSEL:
         self.m, self.sel = m, sel
 
 
-def lambda_pair_relation(lam):
-    """lambda e: e[0] > e[1]  ->  '>' ; e[0] < e[1] -> '<'"""
+def lambda_pair_relation(lam, with_strict=False):
+    """lambda e: e[0] > e[1]  ->  '>' ; e[0] < e[1] -> '<'   (optionally also whether the comparison is strict)"""
     if len(lam.args.args) != 1 or not isinstance(lam.body, ast.Compare) or len(lam.body.ops) != 1:
         return None
     e = lam.args.args[0].arg
@@ -473,11 +476,15 @@ def lambda_pair_relation(lam):
         return None
     l, r = comp(lam.body.left), comp(lam.body.comparators[0])
     op = type(lam.body.ops[0])
+    strict = op in (ast.Gt, ast.Lt)
+    rel = None
     if (l, r) == (0, 1):
-        return {ast.Gt: ">", ast.GtE: ">", ast.Lt: "<", ast.LtE: "<"}.get(op)
+        rel = {ast.Gt: ">", ast.GtE: ">", ast.Lt: "<", ast.LtE: "<"}.get(op)
     if (l, r) == (1, 0):
-        return {ast.Gt: "<", ast.GtE: "<", ast.Lt: ">", ast.LtE: ">"}.get(op)
-    return None
+        rel = {ast.Gt: "<", ast.GtE: "<", ast.Lt: ">", ast.LtE: ">"}.get(op)
+    if rel is None:
+        return None
+    return (rel, strict) if with_strict else rel
 
 
 # ============================================================================ tables
@@ -807,22 +814,27 @@ def rule_counts(prog, rep, rule="PW.count"):
 ALL9 = [(a, b) for a in (Z, P, N) for b in (Z, P, N)]
 
 
-def precheck_rule(prog, rep, rule="PRECHECK"):
-    """C03: before Kahn's loop, topological_ordering raises ValueError as soon as some pair has
-    a != 0 and b != 0 - evaluated on *all* sign pairs and on the diagonal (a is b)."""
+def _contrib(v):
+    """(nonzero?, may be negative / unknown?) of one entry / membership"""
+    if isinstance(v, bool) or v is None:
+        return v, v is None
+    s = v.sign
+    return signs.nonzero(s), s in (N, TOP)
+
+
+def precheck_coverage(prog):
+    """C03: which inputs does the pre-check of topological_ordering reject, before Kahn's loop?
+    -> dict(node, pairs=bool, diag=bool, false_rejections=[...], why=str)
+    pairs: every two-cycle (a != 0 and b != 0, any signs) is rejected; diag: every self-loop is rejected."""
+    from .pred import npred
     q = "sempler.utils.topological_ordering"
     f = prog.func(q)
     S = Sym(prog, inline=lambda g: g.module.name == "sempler.utils" and g.qname != q)
     run_function(S, f)
-    raises = [r for r in S.select("raise", qname=q) if r.exctype == "ValueError" and len(r.path) == 1 and r.path[0][1] is True
-              and not r.loops]
-    found = None
-    why = "no candidate"
+    raises = [r for r in S.select("raise", qname=q) if r.exctype == "ValueError" and len(r.path) == 1 and r.path[0][1] is True and not r.loops]
+    best = {"node": None, "pairs": False, "diag": False, "false_rejections": [], "why": "no pre-check found"}
     for r in raises:
-        cond = r.path[0][0]
-        # forms:  SUM(M) > 0 | 0 < SUM(M) | SUM(M) != 0 | SUM(M) >= 1 | M.any()
-        from .pred import npred
-        pn = npred(cond, True)
+        pn = npred(r.path[0][0], True)
         inner = None
         if pn[0] in (">0", "!=0", ">=0"):
             pd = dict(pn[1])
@@ -833,41 +845,44 @@ def precheck_rule(prog, rep, rule="PRECHECK"):
                     inner = mono[0]
         elif pn[0] == "atom" and pn[2] is True:
             inner = pn[1]
+        elif pn[0] == "nonempty":
+            inner = pn[1]
         if inner is None:
             continue
+        if isinstance(inner, tuple) and inner[0] == "ext" and inner[1] == "len" and len(inner[2]) == 1:
+            inner = inner[2][0]
+        cov = {"node": r.node, "pairs": True, "diag": True, "false_rejections": [], "why": ""}
         try:
-            ok = True
-            for pair in ALL9 + [("d" + s, "d" + s) for s in (Z, P, N)]:
-                if pair[0].startswith("d"):
-                    s = pair[0][1:]
-                    e = E(s, "a")
-                    env = {("param", "A"): M({"*": (e, e)})}
-                    a_, b_ = s, s
-                else:
-                    env = {("param", "A"): M(mat(pair))}
-                    a_, b_ = pair
-                v = Eval(env, {}).ev(inner)
-                if not isinstance(v, CNT) or v.kind not in ("all", "any"):
-                    ok = False
-                    why = "condition is not a sum/any over the whole matrix"
-                    break
-                ij, ji = v.m.d["*"]
-                want = A_(a_) and A_(b_)
-                for e in (ij, ji):
-                    s = e.sign if isinstance(e, E) else (ONE if e is True else Z if e is False else TOP)
-                    if want and s not in (ONE, P):
-                        ok = False
-                        why = "a two-cycle / self-loop with entries %s,%s is not counted (entry %s)" % (a_, b_, s)
-                    if not want and s != Z:
-                        ok = False
-                        why = "pair %s,%s contributes %s although it is no two-cycle" % (a_, b_, s)
-            if ok:
-                found = r
-                break
+            for diag in (False, True):
+                cases = [(s_, s_) for s_ in (Z, P, N)] if diag else ALL9
+                for (a_, b_) in cases:
+                    want = (a_ != Z) if diag else (a_ != Z and b_ != Z)
+                    hits = []
+                    for g in ((True,) if diag else (True, False)):
+                        e1 = E(a_, "a")
+                        env = {("param", "A"): M({"*": (e1, e1) if diag else (e1, E(b_, "b"))})}
+                        v = Eval(env, {"g": g}, diagonal=diag).ev(inner)
+                        if isinstance(v, CNT) and v.kind in ("all", "any"):
+                            parts = list(v.m.d["*"])
+                        elif isinstance(v, PS):
+                            parts = [v.ij, v.ji]
+                        elif isinstance(v, WHERE) and v.ps is not None:
+                            parts = [v.ps.ij, v.ps.ji]
+                        else:
+                            raise Inconclusive("condition is not a sum / any / emptiness test over the whole matrix")
+                        nz = [_contrib(p_) for p_ in parts]
+                        if any(neg for _, neg in nz):
+                            hits.append(None)         # may cancel
+                        else:
+                            hits.append(any(x is True for x, _ in nz))
+                    hit = None if any(h is None for h in hits) else all(hits)
+                    if want and hit is not True:
+                        cov["diag" if diag else "pairs"] = False
+                        cov["why"] += "%s (%s,%s) is not counted; " % ("self-loop" if diag else "two-cycle", a_, b_)
+                    if not want and hit is not False:
+                        cov["false_rejections"].append(("diagonal " if diag else "") + "%s,%s" % (a_, b_))
         except Inconclusive as e:
-            why = e.why
-    if found is not None:
-        rep.ok(rule, {"file": f.module.relpath, "line": found.node.lineno, "function": q, "construct": "pre-check"},
-               "ValueError raised iff some pair has both entries non-zero - all 9 sign pairs and the diagonal, signs cannot cancel")
-    else:
-        rep.bad(rule, where_of(f), "no pre-check rejects every self-loop / two-cycle whatever the signs: " + why)
+            cov = {"node": r.node, "pairs": False, "diag": False, "false_rejections": [], "why": e.why}
+        if (cov["pairs"], cov["diag"]) >= (best["pairs"], best["diag"]) or best["node"] is None:
+            best = cov
+    return f, best
